@@ -33,6 +33,16 @@ CLAIMED = {
   note="Assumes non-zero property inputs/outputs (loader-enforced) and pairwise distinct names (the statement's premise). OUTSIDE: get_in_unit, to_reply, Substance + Substance, database exhaustiveness, multi-element formulas beyond one symbol + count.",
   technique="symbolic execution of rustc MIR + z3, symbolic digit strings",
   ref="DESIGN.md §5 C16"),
+ 'C04': dict(
+  text="Bounded, per-function panic-reachability decided by the solver: every harness registered for the other properties reports each reachable MIR assert failure (overflow, bounds, division by zero), core::panicking call, unwrap/expect on None/Err, todo!/unreachable and each documented panic of a modelled library function (num-rational division by zero, Ratio::new with zero denominator, BigRat::from(NaN), chrono out-of-range constructors) as a candidate, i.e. `path condition` is satisfiable; plus C04-specific harnesses: eval_expr on float operands with symbolic NaN/infinity flags, NumericParts::from (JSON form) on non-finite floats, the lexer's backslash escapes on up to 10 symbolic characters, every operator inside a conversion target, date-literal matchers and number-literal shapes. Each model is lifted to query text and replayed through rink_core::eval + Display + span tree + serde_json under catch_unwind.",
+  note="This is NOT a claim about whole input lines: it covers the functions listed in the evidence on their full symbolic domains. Also counted as a reachable 'panic': BigInt::pow with a concrete exponent above 10^5 for a result that should be small (resource blow-up). OUTSIDE: arbitrary 500-character strings through the recursive-descent parser, stack depth (e.g. 400 nested parentheses), running time of long division (to_digits_impl, e.g. `-> digits 2147483647`), search/factorize/units-for over the database, the REPL/IRC/wasm front ends.",
+  technique="symbolic execution of rustc MIR + z3: satisfiability of the path condition at every panic site, native replay",
+  ref="DESIGN.md §5 C04"),
+ 'C05': dict(
+  text="Reduced claim (the long-division digit loop is outside). Solver-decided on the real MIR: (a) BigRat::to_scientific for bases 2/8/10/16/36 and modes default/scientific/engineering, |value| within [base^-3, base^3] (thorough ^6): the mantissa handed to the digit printer times base^(printed exponent) equals the value exactly, engineering exponents are multiples of 3, the exactness flag is the printer's; (b) BigRat::is_recurring on a remainder n/d with i64 parts: the returned block satisfies digits/(base^period - 1) = n/d, 0 <= digits < base^period, period below the requested bound, no i64 overflow; (c) Numeric::string_repr + the `n` format pattern: `approx.` is shown exactly when the printer did not call the numeral exact; (d) `x -> base B`: the numerals of the reply are those printed for that base, never the base-10 strings of the generic rendering.",
+  note="Stub: BigRat::to_digits_impl / Numeric::to_string -> arbitrary (exactness flag, text) - the digits themselves are NOT checked. OUTSIDE, and therefore most of the property as stated: to_digits_impl (digit budget from an f64 logarithm, value-dependent trip count, seen-remainder set), i.e. that printed digits denote the value, truncation error of approximate numerals, recurring blocks found by the remainder set, `digits N` budgets.",
+  technique="symbolic execution of rustc MIR + z3 (nonlinear integer/real arithmetic with a division lemma)",
+  ref="DESIGN.md §5 C05"),
  'C06': dict(
   text="Two solver-decided parts. (a) Number::prettify on the real MIR with the prefix table read from the loaded database: value an unbounded Real, display unit one of kg/kilogram/bit/gram/meter/second to the power 1,2,-1 (thorough 3): on every path (each possible prefix choice, the kg->gram, bit->byte and tonne special cases) z3 decides numeral * prefix^power * rescaling = the original quantity and that the printed unit is prefix + the same base unit. (b) eval_expr and eval_unit_name executed on the same conversion-target tree (10 shapes over Mul, Frac, Neg, Add, Sub, Pow 2, Mod with symbolic constants and unit values): the target's value equals the printed constant times the product of the named units - the invariant Context::show relies on for factor/divfactor.",
   note="Stub: Number::pretty_unit -> arbitrary single display unit (fast_decompose regrouping and long-name mapping are outside), rendering strings opaque. OUTSIDE: fast_decompose, to_parts_digits string assembly, the `u` pattern renderer, numeral text (C05), unit lists and substance replies.",
@@ -71,7 +81,7 @@ NA = {
 }
 
 PENDING = {
- 'C04': 'not built yet', 'C05': 'not built yet',
+
 
 }
 
